@@ -1338,7 +1338,12 @@ func (sys *System) RetryEventWork(ctx *Context, location string, work *FindRules
 		return err
 	}
 	atomic.AddUint64(&sys.stats.TotalTime, uint64(Now()-then))
-	return loc.RetryEventWork(ctx, work)
+	// Not 'return loc.RetryEventWork(...)': a nil *Condition in an
+	// error is not a nil error.
+	if cond := loc.RetryEventWork(ctx, work); cond != nil {
+		return cond
+	}
+	return nil
 }
 
 // ListRules returns all rules (JSON) stored in the given location.
